@@ -391,7 +391,7 @@ class bptk():
 
 
     def begin_session(self, scenarios, scenario_managers, settings={},agents=[], agent_states=[], agent_properties=[],
-                       agent_property_types=[], individual_agent_properties=[], equations=[],starttime=0.0, dt=1.0):
+                       agent_property_types=[], individual_agent_properties=[], equations=[],starttime=0.0, dt=None):
         """Begins a session to allow stepwise simulation.
 
         This resets the internal session cache, there can only be one session at any time.
@@ -421,8 +421,8 @@ class bptk():
                 Names of equations to plot (System Dynamics).
             starttime: Float (Default=0.0)
                 Timestep at which to start.
-            dt: Dt (Default=1.0)
-                Deltatime.
+            dt: Dt (Default=None)
+                Deltatime. By default the session steps with the dt of its scenarios (1.0 if the scenarios have different dt).
 
         """
         self.session_state = None
@@ -475,6 +475,7 @@ class bptk():
 
         starttime_ = starttime
         stoptime_ = None
+        scenario_dts = set()
 
         for _, manager in self.scenario_manager_factory.scenario_managers.items():
             if manager.name in scenario_managers:
@@ -485,7 +486,12 @@ class bptk():
                                 scenario_object.configure_settings(settings[manager.name][scenario])
                         starttime_ = max(starttime_, scenario_object.starttime)
                         stoptime_ = min(stoptime_,scenario_object.stoptime) if stoptime_ is not None else scenario_object.stoptime
+                        scenario_dts.add(scenario_object.dt)
                         self.reset_scenario_cache(scenario_manager=manager.name, scenario=scenario)
+
+        if dt is None:
+            # step on the time grid of the scenarios, so that a session covers the same times as run_scenarios
+            dt = scenario_dts.pop() if len(scenario_dts) == 1 else 1.0
 
         self.session_state = {
             "scenarios": scenarios,
